@@ -163,8 +163,11 @@ C06WC(e) ==
   Tag(size # Huge /\ size >= Len(ref.out), "underestimate")
   \cup Tag(HasHandle(S) \/ size = Len(ref.out), "inexact")
   \cup Tag(ref.guard /\ ~Has(ref, "oob"), "overrun")
-  \cup (LET d == Dec(S, [bs |-> ref.out, ht |-> [r \in {WordOfNat(k, 8) : k \in 0..255} |-> r], viw |-> VarIndexWidth], 0, Inf) IN
-        Tag(d.ok /\ d.pos = Len(ref.out), "entry-frame"))      \* declared entry sizes frame exactly what follows
+  \* declared entry sizes frame exactly what follows (re-parsed with a handle table for the default references 0..255;
+  \* runs with other references only test the size estimate)
+  \cup (IF Has(e, "customrefs") THEN {}
+        ELSE LET d == Dec(S, [bs |-> ref.out, ht |-> [r \in {WordOfNat(k, 8) : k \in 0..255} |-> r], viw |-> VarIndexWidth], 0, Inf) IN
+             Tag(d.ok /\ d.pos = Len(ref.out), "entry-frame"))
   \cup (IF Has(e, "runs")
         THEN UnionOver(Len(e.runs), LAMBDA i :
                LET r == e.runs[i] IN
